@@ -116,7 +116,8 @@ if ok:
     dst = f"/verif/seeded/{name}"
     os.makedirs(dst, exist_ok=True)
     for f in os.listdir(src):
-        shutil.copy(os.path.join(src, f), dst)
+        if os.path.abspath(src) != os.path.abspath(dst):
+            shutil.copy(os.path.join(src, f), dst)
     m = {"property": pid, "breaks": notes.strip().splitlines()[0:1], "needs_to_manifest": "see NOTES.md", "confirmed_by": "tools/seed_verify.py: pristine demo passes, patch applies and builds, stable tests pass with patch, demo fails with patch", **meta}
     json.dump(m, open(os.path.join(dst, "meta.json"), "w"), indent=1)
 sys.exit(0 if ok else 1)
